@@ -53,6 +53,7 @@ func newSLWorld(f *failer, mm bool, mode guard.Mode) *slWorld {
 				if os.Getenv("C15DBG") != "" {
 					fmt.Printf("C15DBG free node %p key=%d level=%d\n", n, skiplist.IntFromItem(n.Item()), n.Level())
 				}
+				w.arena.Free(n.Item())
 				w.sl.FreeNode(n, &w.sl.Stats)
 				n = next
 			}
@@ -74,6 +75,23 @@ func (w *slWorld) item(k int) unsafe.Pointer {
 	p := skiplist.NewIntKeyItem(k)
 	w.pins = append(w.pins, p)
 	return p
+}
+
+// insert stores key k. With user-managed memory the stored item lives in the allocator too (as nitro's items
+// do) and is released together with its node, so that a comparison against a reclaimed item faults.
+func (w *slWorld) insert(k int, buf *skiplist.ActionBuffer, level int, sts *skiplist.Stats) (*skiplist.Node, bool) {
+	var itm unsafe.Pointer
+	if w.mm {
+		itm = w.arena.Malloc(8)
+		*(*int)(itm) = k
+	} else {
+		itm = w.item(k)
+	}
+	n, ok := w.sl.Insert2(itm, skiplist.CompareInt, nil, buf, levelFn(level), sts)
+	if !ok && w.mm {
+		w.arena.Free(itm) // a rejected insert's item stays with the caller
+	}
+	return n, ok
 }
 
 func (w *slWorld) id(n *skiplist.Node) int64 {
@@ -104,7 +122,7 @@ func levelFn(level int) func() float32 {
 func (w *slWorld) prepopulate(keys []int, levels []int) {
 	buf := w.sl.MakeBuf()
 	for i, k := range keys {
-		n, ok := w.sl.Insert2(w.item(k), skiplist.CompareInt, nil, buf, levelFn(levels[i]), &w.sl.Stats)
+		n, ok := w.insert(k, buf, levels[i], &w.sl.Stats)
 		if !ok {
 			w.f.failf("setup", "prepopulate insert %d failed", k)
 		}
@@ -172,7 +190,7 @@ func (w *slWorld) runScripts(scripts [][]slOp, picker sched.Picker, shared []*sk
 				op := lin.Op{Th: th.ID, Kind: o.kind, Key: fmt.Sprint(o.key), Call: s.Tick()}
 				switch o.kind {
 				case lin.Insert:
-					n, ok := w.sl.Insert2(w.item(o.key), skiplist.CompareInt, nil, buf, levelFn(o.level), sts)
+					n, ok := w.insert(o.key, buf, o.level, sts)
 					op.Ok = ok
 					if ok {
 						op.Node = w.id(n)
@@ -275,7 +293,7 @@ func (w *slWorld) walkCheck(sigPrefix string) *walk.Result {
 	raw := w.sl.Stats.VerifRaw()
 	if w.mm {
 		// allocations minus frees == nodes live in the allocator (sentinels are not counted as allocations)
-		liveNodes := int64(w.arena.LiveCount() - 2)
+		liveNodes := int64(w.arena.LiveCount()-2) / 2 // every node has its item next to it
 		if raw.NodeAllocs-raw.NodeFrees != liveNodes {
 			w.f.failf(sigPrefix+"stats", "statistics allocs-frees = %d-%d, the allocator holds %d live nodes", raw.NodeAllocs, raw.NodeFrees, liveNodes)
 		}
